@@ -101,6 +101,55 @@ pub fn sparse_bit_set_bf4(vals: &BTreeSet<u32>) -> Vec<u8> {
     out
 }
 
+/// From-spec sparse bit set encoder for every branch factor (2, 4, 8, 32).
+/// <https://w3c.github.io/IFT/Overview.html#sparse-bit-set-decoding>: header byte = branch factor
+/// code in bits 0-1 (0,1,2,3 = 2,4,8,32), tree height in bits 2-6; then the nodes in breadth first
+/// order, each `bf` bits (bit i = child i present), packed least significant bit first; a node of all
+/// zero bits means "every value below this node is a member". `height` may exceed the minimum.
+/// `filled` = use the all-zero shortcut wherever a whole node is present (otherwise spelled out).
+/// `vals` are the encoded (un-biased) values, all < bf^height.
+pub fn sbs_encode(bf: u32, height: u32, vals: &BTreeSet<u64>, filled: bool) -> Vec<u8> {
+    let code = match bf {
+        2 => 0u8,
+        4 => 1,
+        8 => 2,
+        _ => 3,
+    };
+    let mut bits: Vec<bool> = vec![];
+    if height > 0 {
+        let mut queue: std::collections::VecDeque<(u64, u32)> = Default::default();
+        queue.push_back((0, 1));
+        while let Some((start, depth)) = queue.pop_front() {
+            let size = (bf as u64).pow(height - depth + 1);
+            let count = vals.range(start..start + size).count() as u64;
+            if filled && count == size {
+                bits.extend(std::iter::repeat(false).take(bf as usize));
+                continue;
+            }
+            let child = size / bf as u64;
+            for c in 0..bf as u64 {
+                let cs = start + c * child;
+                let any = vals.range(cs..cs + child).next().is_some();
+                bits.push(any);
+                if any && depth < height {
+                    queue.push_back((cs, depth + 1));
+                }
+            }
+        }
+    }
+    let mut out = vec![((height as u8) << 2) | code];
+    for chunk in bits.chunks(8) {
+        let mut b = 0u8;
+        for (i, x) in chunk.iter().enumerate() {
+            if *x {
+                b |= 1 << i;
+            }
+        }
+        out.push(b);
+    }
+    out
+}
+
 // ---------------------------------------------------------------------------
 // URI template expansion for the subset of templates the harness uses: literal ASCII bytes that are
 // copied verbatim plus the `{id}` variable (base32hex, no padding, of the minimal big-endian id).
@@ -242,6 +291,16 @@ pub enum Cps {
     /// code point bits set but the sparse bit set is the explicit empty set: a single header byte
     /// (tree height 0) with branch factor code `bf_code` (0..=3 = BF 2/4/8/32)
     Empty { bias_kind: u8, bias: u32, bf_code: u8 },
+    /// code point bits set; the sparse bit set bytes are given verbatim (built by `sbs_encode` for any
+    /// branch factor). `members` is the reference decoding: absolute code points (encoded value + bias)
+    /// that are <= 0x10FFFF. `invalid` = the bit stream is too short: the table must be rejected.
+    Raw {
+        bias_kind: u8,
+        bias: u32,
+        bytes: Vec<u8>,
+        members: Vec<u32>,
+        invalid: bool,
+    },
 }
 
 #[derive(Clone, Debug, PartialEq, Eq, Hash, Serialize, Deserialize)]
@@ -340,9 +399,9 @@ pub fn encode_t2(t: &T2) -> Enc2 {
         entry_starts.push(w.len());
         let cp_bits = match &e.cps {
             Cps::None => 0u8,
-            Cps::Set { bias_kind: 0, .. } | Cps::Empty { bias_kind: 0, .. } => 0b01,
-            Cps::Set { bias_kind: 1, .. } | Cps::Empty { bias_kind: 1, .. } => 0b10,
-            Cps::Set { .. } | Cps::Empty { .. } => 0b11,
+            Cps::Set { bias_kind: 0, .. } | Cps::Empty { bias_kind: 0, .. } | Cps::Raw { bias_kind: 0, .. } => 0b01,
+            Cps::Set { bias_kind: 1, .. } | Cps::Empty { bias_kind: 1, .. } | Cps::Raw { bias_kind: 1, .. } => 0b10,
+            Cps::Set { .. } | Cps::Empty { .. } | Cps::Raw { .. } => 0b11,
         };
         let flags = (e.fds as u8)
             | ((e.children.is_some() as u8) << 1)
@@ -399,6 +458,14 @@ pub fn encode_t2(t: &T2) -> Enc2 {
                 _ => w.u24(*bias),
             }
             w.u8(*bf_code & 3); // height 0
+        }
+        if let Cps::Raw { bias_kind, bias, bytes, .. } = &e.cps {
+            match bias_kind {
+                0 => {}
+                1 => w.u16(*bias as u16),
+                _ => w.u24(*bias),
+            }
+            w.bytes(bytes);
         }
     }
     if let Some(s) = &t.string_data {
@@ -666,7 +733,7 @@ fn union_len(mut segs: Vec<(i32, i32)>) -> i64 {
 fn e2_members(e: &E2) -> &[u32] {
     match &e.cps {
         Cps::None | Cps::Empty { .. } => &[],
-        Cps::Set { members, .. } => members,
+        Cps::Set { members, .. } | Cps::Raw { members, .. } => members,
     }
 }
 
@@ -834,6 +901,9 @@ pub fn ref_t2(t: &T2, table: u8, d: &Def) -> Result<Vec<RefPatch>, &'static str>
             if !(1..=3).contains(&f) {
                 return Err("bad entry format");
             }
+        }
+        if matches!(&e.cps, Cps::Raw { invalid: true, .. }) {
+            return Err("sparse bit set stream too short");
         }
     }
     let ids = t2_ids(t)?;
